@@ -42,6 +42,10 @@ func VerifProgStore() {
 	case 2:
 		cfg.ops = []int{opOverwrite, opRead, opFlush}
 		cfg.endings = []int{endCommit}
+	case 3:
+		cfg.ops = []int{opOverwrite, opRead, opFlush, opCheckpoint, opPartial}
+		cfg.endings = []int{endCommit}
+		cfg.slowDisk = true
 	}
 	s := verifNewProg(cfg)
 	s.checkSpace("after create")
